@@ -40,7 +40,9 @@ def main():
         m = json.load(open(f))
         runs = m.get("results_first_run", [])
         bad = [r for r in runs if r["exit"] != 0]
-        out = "all silent" if not bad else ("first run: " + ", ".join(f"{r['check']} exit {r['exit']}" for r in bad) + "; false alarms fixed, silent afterwards")
+        out = "all silent" if not bad else ("first run: " + ", ".join(f"{r['check']} exit {r['exit']}" for r in bad) + "; weakness of the machinery fixed, silent afterwards")
+        if not bad and m.get("false_alarms_found"):
+            out = "all silent (a false alarm of the earlier machinery was pre-empted, see text)"
         rows3.append(f"| {m['id']} | {m['what']} | {', '.join(r['check'] for r in runs)} | {out} |")
     a3, b3 = "<!-- REFTABLE-BEGIN -->", "<!-- REFTABLE-END -->"
     if a3 in s:
